@@ -291,6 +291,165 @@
 #[macro_use]
 extern crate derive_builder;
 
+/// Verification failpoint (feature `verif-hooks`): returns the given error from the enclosing function
+/// (or closure) when the external harness armed this site. Expands to nothing without the feature.
+#[cfg(feature = "verif-hooks")]
+macro_rules! verif_failpoint {
+    ($site:literal, $err:expr) => {
+        if $crate::verif_hooks::hit($site) {
+            return Err($err);
+        }
+    };
+}
+#[cfg(not(feature = "verif-hooks"))]
+macro_rules! verif_failpoint {
+    ($site:literal, $err:expr) => {};
+}
+
+/// Failpoint registry used by the external verification harness (feature `verif-hooks`, off by default).
+///
+/// State is thread-local: a harness arms `(site, nth hit)` on the thread that runs the operation.
+#[cfg(feature = "verif-hooks")]
+pub mod verif_hooks {
+    use crate::core::algorithms::flips::{DelaunayRepairError, FlipError};
+    use crate::core::algorithms::incremental_insertion::InsertionError;
+    use crate::core::triangulation::TriangulationValidationError;
+    use crate::core::triangulation_data_structure::TdsValidationError;
+    use std::cell::RefCell;
+
+    #[derive(Default)]
+    struct State {
+        armed: Option<(String, u32)>,
+        flavor: u8,
+        fired: bool,
+        recording: bool,
+        counts: Vec<(&'static str, u32)>,
+    }
+
+    thread_local! {
+        static STATE: RefCell<State> = RefCell::new(State::default());
+    }
+
+    /// Clears all failpoint state of this thread.
+    pub fn reset() {
+        STATE.with(|s| *s.borrow_mut() = State::default());
+    }
+
+    /// Starts counting hits per site (record mode).
+    pub fn start_recording() {
+        STATE.with(|s| {
+            let mut s = s.borrow_mut();
+            *s = State::default();
+            s.recording = true;
+        });
+    }
+
+    /// Stops record mode and returns `(site, hits)` in first-hit order.
+    #[must_use]
+    pub fn stop_recording() -> Vec<(&'static str, u32)> {
+        STATE.with(|s| {
+            let mut s = s.borrow_mut();
+            s.recording = false;
+            std::mem::take(&mut s.counts)
+        })
+    }
+
+    /// Arms exactly one failure: the `nth` (1-based) hit of `site`. `flavor` selects among error kinds
+    /// where a site can return more than one (0 = non-retryable, 1 = retryable / non-convergent).
+    pub fn arm(site: &str, nth: u32, flavor: u8) {
+        STATE.with(|s| {
+            let mut s = s.borrow_mut();
+            *s = State::default();
+            s.armed = Some((site.to_string(), nth));
+            s.flavor = flavor;
+        });
+    }
+
+    /// Disarms and reports whether the armed failure fired.
+    pub fn disarm() -> bool {
+        STATE.with(|s| {
+            let mut s = s.borrow_mut();
+            let fired = s.fired;
+            *s = State::default();
+            fired
+        })
+    }
+
+    /// Called by `verif_failpoint!`. Returns `true` exactly once, at the armed hit.
+    #[must_use]
+    pub fn hit(site: &'static str) -> bool {
+        STATE.with(|s| {
+            let mut s = s.borrow_mut();
+            if !s.recording && s.armed.is_none() {
+                return false;
+            }
+            let n = if let Some(e) = s.counts.iter_mut().find(|e| e.0 == site) {
+                e.1 += 1;
+                e.1
+            } else {
+                s.counts.push((site, 1));
+                1
+            };
+            let fire = matches!(&s.armed, Some((a, nth)) if a == site && *nth == n);
+            if fire {
+                s.armed = None;
+                s.fired = true;
+            }
+            fire
+        })
+    }
+
+    fn flavor() -> u8 {
+        STATE.with(|s| s.borrow().flavor)
+    }
+
+    /// Injected structural error.
+    #[must_use]
+    pub fn tds_err(site: &str) -> TdsValidationError {
+        TdsValidationError::InconsistentDataStructure {
+            message: format!("verif failpoint {site}"),
+        }
+    }
+
+    /// Injected Level-3 error.
+    #[must_use]
+    pub fn tri_err(site: &str) -> TriangulationValidationError {
+        TriangulationValidationError::from(tds_err(site))
+    }
+
+    /// Injected insertion error: non-retryable (flavor 0) or retryable (flavor 1).
+    #[must_use]
+    pub fn ins_err(site: &str) -> InsertionError {
+        if flavor() == 0 {
+            InsertionError::CavityFilling {
+                message: format!("verif failpoint {site}"),
+            }
+        } else {
+            InsertionError::TopologyValidation(tds_err(site))
+        }
+    }
+
+    /// Injected flip error.
+    #[must_use]
+    pub fn flip_err(site: &str) -> FlipError {
+        FlipError::TdsMutation {
+            message: format!("verif failpoint {site}"),
+        }
+    }
+
+    /// Injected repair error: a flip error (flavor 0) or a failed postcondition (flavor 1).
+    #[must_use]
+    pub fn repair_err(site: &str) -> DelaunayRepairError {
+        if flavor() == 0 {
+            DelaunayRepairError::Flip(flip_err(site))
+        } else {
+            DelaunayRepairError::PostconditionFailed {
+                message: format!("verif failpoint {site}"),
+            }
+        }
+    }
+}
+
 /// The `core` module contains the primary data structures and algorithms for building and manipulating Delaunay triangulations.
 ///
 /// It includes the `Tds` struct, which represents the triangulation, as well as `Cell`, `Facet`, and `Vertex` components.
